@@ -4,7 +4,8 @@
      search_object                         mir/passes/mod.rs
      get_method / collect_into_blocks      mir/lir_transform.rs      (the LIR method lists, ref lowering WITH FUEL)
      get_block_claimed_addresses, run_pass lir/passes/addresses_non_overlapping.rs
-     find_min_max_addresses                mir/passes/mod.rs          (with the address_offsets stack / last_depth)
+     find_min_max_addresses / collect_min_max_addresses   mir/passes/mod.rs   (the repaired walk: refs followed, all repeats,
+                                           i128; the walk before the repair is kept as [pre_mm_walk] etc., section (d-pre))
      address_types_specified, address_types_big_enough, find_best_internal_address
      gen_addr                              lir/token_transform/block_transform.rs (the emitted arithmetic)
    SPEC (written from properties C04/C12/C13 and book/src/{blocks,refs}.md, independently of the code):
@@ -13,9 +14,9 @@
    Names.  The collision pass prints `name.to_case(Pascal)` of the LIR identifiers, which are
    `to_case(Snake)` of the (already normalised, PascalCase) MIR names.  For names that are fixed points of
    that round trip (letters-only PascalCase, CONVENTIONS.md) this is the identity; the model prints MIR names.
-   Numbers.  The generator computes in i64 / u64; the model computes in Z and records separately
-   ([mm_ok], [best_internal]) where the real arithmetic would overflow (a panic of the generator in a build
-   with overflow checks). *)
+   Numbers.  The generator computes in i64 (collision pass) / i128, u128 (min/max walk, internal type); the model
+   computes in Z and records separately ([chk128], the guards of [walk_one], [best_internal]) where the real arithmetic
+   would overflow (a panic of the generator in a build with overflow checks). *)
 From Coq Require Import ZArith List Bool String Ascii.
 From DD Require Import Common Mir GenErr.
 Import ListNotations.
@@ -35,6 +36,8 @@ Definition find_some {A B} (f : A -> option B) : list A -> option B :=
 (* 0, 1, .., n-1 as Z (empty for n <= 0) *)
 Definition zrange (n : Z) : list Z := map Z.of_nat (seq 0 (Z.to_nat n)).
 
+Definition zsum (l : list Z) : Z := fold_right Z.add 0 l.
+
 (* sequence a list of outcomes of lists and concatenate (first failure, left to right, wins) *)
 Fixpoint ocat {A} (l : list (outcome (list A))) : outcome (list A) :=
   match l with
@@ -47,6 +50,8 @@ Fixpoint ocat {A} (l : list (outcome (list A))) : outcome (list A) :=
 
 Definition i64 : ity := {| signed := true; bits := 64 |}.
 Definition in_i64 (z : Z) : bool := in_range i64 z.
+Definition i128 : ity := {| signed := true; bits := 128 |}.
+Definition in_i128 (z : Z) : bool := in_range i128 z.
 
 Inductive akind := KRegister | KCommand | KBuffer.
 
@@ -208,8 +213,9 @@ Definition index_suffix (i : Z) : string := " (index: " ++ show_Z i ++ ")".
 Definition find_block (name : string) (blocks : list lblock) : option lblock :=
   find (fun b => String.eqb (b_name b) name) blocks.
 
-(* i64 arithmetic of the real pass: a value outside i64 is an overflow panic *)
-Definition chk64 {A} (z : Z) (x : outcome A) : outcome A := if in_i64 z then x else Fail Overflow.
+(* i128 arithmetic of the real pass (i64 before the repair of D3c): a value outside i128 is an overflow panic; not
+   reachable with i64 addresses / strides and u64 counts unless products near 2^127 are nested *)
+Definition chk128 {A} (z : Z) (x : outcome A) : outcome A := if in_i128 z then x else Fail Overflow.
 
 (* get_block_claimed_addresses(device, block, current_address_offset, name_stack); the recursion goes
    through a lookup BY NAME among all blocks (first match), so it is not structural: fuel. *)
@@ -222,18 +228,18 @@ Fixpoint claimed_methods (fuel : nat) (blocks : list lblock) (ms : list lmethod)
       let off' := off + m_address m in
       let count := rep_count (m_repeat m) in
       let stride := rep_stride (m_repeat m) in
-      chk64 off'
+      chk128 off'
       match m_kind m with
       | MBlock name =>
           match find_block name blocks with
           | None => Fail AssertFail
           | Some sb =>
-              ocat (map (fun i => chk64 (i * stride) (chk64 (off' + i * stride)
+              ocat (map (fun i => chk128 (i * stride) (chk128 (off' + i * stride)
                                     (claimed_methods f blocks (b_methods sb) (off' + i * stride)
                                        (stack ++ [(name ++ index_suffix i)%string])%list))) (zrange count))
           end
       | MLeaf k =>
-          ocat (map (fun i => chk64 (i * stride) (chk64 (off' + i * stride)
+          ocat (map (fun i => chk128 (i * stride) (chk128 (off' + i * stride)
                         (Ok [{| c_name := String.concat "::" (stack ++ [m_name m])%list;
                                 c_index := if rep_is (m_repeat m) then Some i else None;
                                 c_address := off' + i * stride;
@@ -280,67 +286,9 @@ Definition overlap_pass (fuel : nat) (blocks : list lblock) : outcome (option ge
   end.
 
 (* ------------------------------------------------------------------------------------------------ *)
-(** * (d) find_min_max_addresses with its stack discipline; the passes using it; the emitted arithmetic *)
-
-Record mm_state := {
-  mm_min : Z; mm_max : Z;
-  mm_last_depth : nat;
-  mm_offsets : list Z;          (* address_offsets WITHOUT its initial 0; head = top of the stack *)
-  mm_ok : bool }.               (* false once an intermediate value left i64 (overflow panic in the real pass) *)
-
-Definition mm_init : mm_state :=
-  {| mm_min := 0; mm_max := 0; mm_last_depth := O; mm_offsets := []; mm_ok := true |}.
-
-(* while depth < last_depth { address_offsets.pop(); last_depth -= 1; } *)
-Fixpoint mm_pop (n : nat) (st : mm_state) : mm_state :=
-  match n with
-  | O => st
-  | S n' => mm_pop n' {| mm_min := mm_min st; mm_max := mm_max st; mm_last_depth := pred (mm_last_depth st);
-                         mm_offsets := tl (mm_offsets st); mm_ok := mm_ok st |}
-  end.
-
-Definition zsum (l : list Z) : Z := fold_right Z.add 0 l.
-
-(* every partial sum of address_offsets.iter().sum::<i64>() (bottom of the stack first) stays in i64 *)
-Fixpoint prefix_sums_ok (acc : Z) (l : list Z) : bool :=
-  match l with
-  | [] => true
-  | x :: t => in_i64 (acc + x) && prefix_sums_ok (acc + x) t
-  end.
-
-Definition mm_step (filter : object -> bool) (st : mm_state) (od : object * nat) : mm_state :=
-  let (o, depth) := od in
-  let st1 := mm_pop (mm_last_depth st - depth)%nat st in
-  if negb (filter o) then st1
-  else
-    let st2 :=
-      match object_address o with
-      | None => st1
-      | Some address =>
-          let count := rep_count (object_repeat o) in
-          let stride := rep_stride (object_repeat o) in
-          let total := zsum (mm_offsets st1) in
-          let count_0 := total + address in
-          let prod := Z.max (count - 1) 0 * stride in        (* count.saturating_sub(1) as i64 * stride *)
-          let count_max := count_0 + prod in
-          {| mm_min := Z.min (Z.min (mm_min st1) count_0) count_max;
-             mm_max := Z.max (Z.max (mm_max st1) count_0) count_max;
-             mm_last_depth := mm_last_depth st1; mm_offsets := mm_offsets st1;
-             mm_ok := mm_ok st1 && prefix_sums_ok 0 (rev (mm_offsets st1)) && in_i64 count_0 && in_i64 prod
-                      && in_i64 count_max |}
-      end in
-    match o with
-    | OBlock _ _ off _ _ =>
-        {| mm_min := mm_min st2; mm_max := mm_max st2; mm_last_depth := S (mm_last_depth st2);
-           mm_offsets := off :: mm_offsets st2; mm_ok := mm_ok st2 |}
-    | _ => st2
-    end.
-
-Definition mm_walk (filter : object -> bool) (objs : list object) : mm_state :=
-  fold_left (mm_step filter) (preorder objs) mm_init.
-
-Definition find_min_max_addresses (filter : object -> bool) (objs : list object) : Z * Z :=
-  let st := mm_walk filter objs in (mm_min st, mm_max st).
+(** * (d) find_min_max_addresses (the REPAIRED walk: refs followed to their targets, every repeat of the object
+      and of the blocks around it, i128); the passes using it; the emitted arithmetic.
+      The walk as it was before the repair (address_offsets stack, i64) is kept in section (d-pre) below. *)
 
 (* the four filters *)
 Definition filter_all (_ : object) : bool := true.
@@ -354,6 +302,77 @@ Definition filter_kind (k : akind) (o : object) : bool :=
   | OBuffer _, KBuffer => true
   | _, _ => false
   end.
+
+(* `search_object(ref_object.object_override.name(), device_objects)` for a ref, None for everything else *)
+Definition ref_target (dev : list object) (o : object) : option object :=
+  match o with
+  | ORef _ _ ov => search_object (override_target ov) dev
+  | _ => None
+  end.
+
+(* `object.address().or_else(|| ref_target.and_then(|target| target.address()))`, the same for repeat() *)
+Definition eff_address (o : object) (tgt : option object) : option Z :=
+  match object_address o with
+  | Some a => Some a
+  | None => match tgt with Some t => object_address t | None => None end
+  end.
+Definition eff_repeat (o : object) (tgt : option object) : option repeat :=
+  match object_repeat o with
+  | Some r => Some r
+  | None => match tgt with Some t => object_repeat t | None => None end
+  end.
+
+(* the objects visited below an object: a block's own, a block ref's target's *)
+Definition walk_children (o : object) (tgt : option object) : option (list object) :=
+  match o, tgt with
+  | OBlock _ _ _ _ objs, _ => Some objs
+  | ORef _ _ _, Some (OBlock _ _ _ _ objs) => Some objs
+  | _, _ => None
+  end.
+
+Definition widen (acc : Z * Z) (mn mx : Z) : Z * Z := (Z.min (fst acc) mn, Z.max (snd acc) mx).
+
+(* the body of the `for object in objects` loop of collect_min_max_addresses; [lo, hi] = (min_block_address,
+   max_block_address), [acc] = min_max_addresses_found, [rec] = the recursive call.  Every intermediate value of the
+   real i128 arithmetic is guarded: [Fail Overflow] = a panic of a generator built with overflow checks (not reachable
+   with i64 addresses / strides and u64 counts unless products near 2^127 are nested). *)
+Definition walk_one (rec : list object -> Z -> Z -> Z * Z -> outcome (Z * Z))
+           (dev : list object) (filter : object -> bool) (lo hi : Z) (o : object) (acc : Z * Z) : outcome (Z * Z) :=
+  let tgt := ref_target dev o in
+  match eff_address o tgt with
+  | None => Ok acc                                                    (* `continue` *)
+  | Some a =>
+      let rep := eff_repeat o tgt in
+      let last := Z.max (rep_count rep - 1) 0 * rep_stride rep in     (* count.saturating_sub(1) as i128 * stride as i128 *)
+      let mn := lo + a + Z.min last 0 in
+      let mx := hi + a + Z.max last 0 in
+      if negb (in_i128 last && in_i128 (lo + a) && in_i128 mn && in_i128 (hi + a) && in_i128 mx) then Fail Overflow
+      else
+        let acc1 := if filter o then widen acc mn mx else acc in
+        match walk_children o tgt with
+        | None => Ok acc1
+        | Some ch => rec ch mn mx acc1
+        end
+  end.
+
+(* the loop: first failure wins *)
+Definition walk_list (one : object -> Z * Z -> outcome (Z * Z)) : list object -> Z * Z -> outcome (Z * Z) :=
+  fix go l acc := match l with
+                  | [] => Ok acc
+                  | o :: t => match one o acc with Fail k => Fail k | Ok a => go t a end
+                  end.
+
+(* collect_min_max_addresses.  The recursion of the real code goes through search_object for a block ref (a block ref
+   nested in its own target never returns): fuel, one unit per block level / block-ref hop, like [instances_objs]. *)
+Fixpoint walk_objs (fuel : nat) (dev : list object) (filter : object -> bool) (objs : list object) (lo hi : Z)
+         (acc : Z * Z) {struct fuel} : outcome (Z * Z) :=
+  match fuel with
+  | O => Fail OutOfFuel
+  | S f => walk_list (walk_one (walk_objs f dev filter) dev filter lo hi) objs acc
+  end.
+
+Definition find_min_max_addresses (fuel : nat) (filter : object -> bool) (objs : list object) : outcome (Z * Z) :=
+  walk_objs fuel objs filter objs 0 0 (0, 0).
 
 Definition address_type_of (g : config) (k : akind) : option integer :=
   match k with
@@ -374,47 +393,158 @@ Definition specified_check (g : config) (o : object) : option gen_error :=
 Definition address_types_specified (d : device) : option gen_error :=
   first_error (map (specified_check (d_config d)) (preorder_objects (d_objects d))).
 
-(* address_types_big_enough: register, command, buffer in that order; low bound before high bound *)
-Definition big_enough_kind (d : device) (k : akind) : option gen_error :=
+(* the two `ensure!`s of one kind: low bound before high bound *)
+Definition range_error (k : akind) (t : integer) (mn mx : Z) : option gen_error :=
+  if negb (integer_min t <=? mn)
+  then Some (mk_err "address_too_low" [show_akind k; show_Z mn; show_integer t; show_Z (integer_min t)])
+  else if negb (mx <=? integer_max t)
+  then Some (mk_err "address_too_high" [show_akind k; show_Z mx; show_integer t; show_Z (integer_max t)])
+  else None.
+
+Definition big_enough_kind (fuel : nat) (d : device) (k : akind) : outcome (option gen_error) :=
   match address_type_of (d_config d) k with
-  | None => None
+  | None => Ok None
   | Some t =>
-      let (mn, mx) := find_min_max_addresses (filter_kind k) (d_objects d) in
-      if negb (integer_min t <=? mn)
-      then Some (mk_err "address_too_low" [show_akind k; show_Z mn; show_integer t; show_Z (integer_min t)])
-      else if negb (mx <=? integer_max t)
-      then Some (mk_err "address_too_high" [show_akind k; show_Z mx; show_integer t; show_Z (integer_max t)])
-      else None
+      match find_min_max_addresses fuel (filter_kind k) (d_objects d) with
+      | Fail f => Fail f
+      | Ok (mn, mx) => Ok (range_error k t mn mx)
+      end
   end.
 
-Definition address_types_big_enough (d : device) : option gen_error :=
-  first_error (map (big_enough_kind d) [KRegister; KCommand; KBuffer]).
+(* address_types_big_enough: register, command, buffer one after the other; the first error (or failure) wins *)
+Fixpoint big_enough_seq (fuel : nat) (d : device) (ks : list akind) : outcome (option gen_error) :=
+  match ks with
+  | [] => Ok None
+  | k :: t =>
+      match big_enough_kind fuel d k with
+      | Fail f => Fail f
+      | Ok (Some e) => Ok (Some e)
+      | Ok None => big_enough_seq fuel d t
+      end
+  end.
 
-(* The real pass computes in i64 with overflow checks and handles register, command, buffer one after the
-   other: an error of an earlier kind comes before a panic of a later kind's walk. *)
-Fixpoint big_enough_seq (d : device) (ks : list akind) : outcome (option gen_error) :=
+Definition address_types_big_enough (fuel : nat) (d : device) : outcome (option gen_error) :=
+  big_enough_seq fuel d [KRegister; KCommand; KBuffer].
+
+(* u64/u128::next_power_of_two / ilog2 on mathematical integers *)
+Definition next_power_of_two (z : Z) : Z := if z <=? 1 then 1 else 2 ^ Z.log2_up z.
+
+(* find_best_internal_address on i128 / u128.  [Fail Overflow]: `(..).add(1).next_power_of_two()` overflows u128
+   (only for min = -2^127; not reachable from i64 addresses). *)
+Definition best_internal (mn mx : Z) : outcome ity :=
+  let needs_signed := mn <? 0 in
+  let m := Z.max (Z.abs mn) (Z.abs mx) + 1 in
+  if 2 ^ 127 <? m then Fail Overflow
+  else
+    let needs_bits :=
+      Z.max (next_power_of_two (Z.log2 (next_power_of_two m) + (if needs_signed then 1 else 0))) 8 in
+    Ok {| signed := needs_signed; bits := needs_bits |}.
+
+Definition internal_type_at (fuel : nat) (d : device) : outcome ity :=
+  match find_min_max_addresses fuel filter_all (d_objects d) with
+  | Fail f => Fail f
+  | Ok (mn, mx) => best_internal mn mx
+  end.
+
+(* fuel that is enough for the walk of every tree whose block refs are not nested in their own targets (every chain of
+   block levels / block-ref hops enters each block's object list at most once) *)
+Definition walk_fuel (objs : list object) : nat := S (S (objects_size objs)).
+
+(* the internal type of a device, for users that have no fuel of their own (Emit.v) *)
+Definition internal_type (d : device) : outcome ity := internal_type_at (walk_fuel (d_objects d)) d.
+
+(* ------------------------------------------------------------------------------------------------ *)
+(** * (d-pre) HISTORICAL: find_min_max_addresses and its users as they were BEFORE the repair of D3 / D3c / D4 / D4b /
+      D4c (the address_offsets stack / last_depth discipline, i64 / u64 arithmetic).  Only the historical theorems
+      of props/C13.v (the five witnesses that used to be accepted) refer to these definitions. *)
+
+Record pre_mm_state := {
+  pre_mm_min : Z; pre_mm_max : Z;
+  pre_mm_last_depth : nat;
+  pre_mm_offsets : list Z;          (* address_offsets WITHOUT its initial 0; head = top of the stack *)
+  pre_mm_ok : bool }.               (* false once an intermediate value left i64 (overflow panic in the old pass) *)
+
+Definition pre_mm_init : pre_mm_state :=
+  {| pre_mm_min := 0; pre_mm_max := 0; pre_mm_last_depth := O; pre_mm_offsets := []; pre_mm_ok := true |}.
+
+(* while depth < last_depth { address_offsets.pop(); last_depth -= 1; } *)
+Fixpoint pre_mm_pop (n : nat) (st : pre_mm_state) : pre_mm_state :=
+  match n with
+  | O => st
+  | S n' => pre_mm_pop n' {| pre_mm_min := pre_mm_min st; pre_mm_max := pre_mm_max st;
+                             pre_mm_last_depth := pred (pre_mm_last_depth st);
+                             pre_mm_offsets := tl (pre_mm_offsets st); pre_mm_ok := pre_mm_ok st |}
+  end.
+
+(* every partial sum of address_offsets.iter().sum::<i64>() (bottom of the stack first) stays in i64 *)
+Fixpoint prefix_sums_ok (acc : Z) (l : list Z) : bool :=
+  match l with
+  | [] => true
+  | x :: t => in_i64 (acc + x) && prefix_sums_ok (acc + x) t
+  end.
+
+Definition pre_mm_step (filter : object -> bool) (st : pre_mm_state) (od : object * nat) : pre_mm_state :=
+  let (o, depth) := od in
+  let st1 := pre_mm_pop (pre_mm_last_depth st - depth)%nat st in
+  if negb (filter o) then st1
+  else
+    let st2 :=
+      match object_address o with
+      | None => st1
+      | Some address =>
+          let count := rep_count (object_repeat o) in
+          let stride := rep_stride (object_repeat o) in
+          let total := zsum (pre_mm_offsets st1) in
+          let count_0 := total + address in
+          let prod := Z.max (count - 1) 0 * stride in        (* count.saturating_sub(1) as i64 * stride *)
+          let count_max := count_0 + prod in
+          {| pre_mm_min := Z.min (Z.min (pre_mm_min st1) count_0) count_max;
+             pre_mm_max := Z.max (Z.max (pre_mm_max st1) count_0) count_max;
+             pre_mm_last_depth := pre_mm_last_depth st1; pre_mm_offsets := pre_mm_offsets st1;
+             pre_mm_ok := pre_mm_ok st1 && prefix_sums_ok 0 (rev (pre_mm_offsets st1)) && in_i64 count_0 && in_i64 prod
+                      && in_i64 count_max |}
+      end in
+    match o with
+    | OBlock _ _ off _ _ =>
+        {| pre_mm_min := pre_mm_min st2; pre_mm_max := pre_mm_max st2; pre_mm_last_depth := S (pre_mm_last_depth st2);
+           pre_mm_offsets := off :: pre_mm_offsets st2; pre_mm_ok := pre_mm_ok st2 |}
+    | _ => st2
+    end.
+
+Definition pre_mm_walk (filter : object -> bool) (objs : list object) : pre_mm_state :=
+  fold_left (pre_mm_step filter) (preorder objs) pre_mm_init.
+
+Definition pre_find_min_max_addresses (filter : object -> bool) (objs : list object) : Z * Z :=
+  let st := pre_mm_walk filter objs in (pre_mm_min st, pre_mm_max st).
+
+Definition pre_big_enough_kind (d : device) (k : akind) : option gen_error :=
+  match address_type_of (d_config d) k with
+  | None => None
+  | Some t => let (mn, mx) := pre_find_min_max_addresses (filter_kind k) (d_objects d) in range_error k t mn mx
+  end.
+
+(* The old pass computed in i64 with overflow checks and handled register, command, buffer one after the
+   other: an error of an earlier kind came before a panic of a later kind's walk. *)
+Fixpoint pre_big_enough_seq (d : device) (ks : list akind) : outcome (option gen_error) :=
   match ks with
   | [] => Ok None
   | k :: t =>
       match address_type_of (d_config d) k with
-      | None => big_enough_seq d t
+      | None => pre_big_enough_seq d t
       | Some _ =>
-          if negb (mm_ok (mm_walk (filter_kind k) (d_objects d))) then Fail Overflow
-          else match big_enough_kind d k with
+          if negb (pre_mm_ok (pre_mm_walk (filter_kind k) (d_objects d))) then Fail Overflow
+          else match pre_big_enough_kind d k with
                | Some e => Ok (Some e)
-               | None => big_enough_seq d t
+               | None => pre_big_enough_seq d t
                end
       end
   end.
 
-Definition address_types_big_enough_i64 (d : device) : outcome (option gen_error) :=
-  big_enough_seq d [KRegister; KCommand; KBuffer].
+Definition pre_address_types_big_enough_i64 (d : device) : outcome (option gen_error) :=
+  pre_big_enough_seq d [KRegister; KCommand; KBuffer].
 
-(* u64::next_power_of_two / ilog2 on mathematical integers *)
-Definition next_power_of_two (z : Z) : Z := if z <=? 1 then 1 else 2 ^ Z.log2_up z.
-
-(* find_best_internal_address.  [Fail Overflow]: `(..).add(1).next_power_of_two()` overflows u64. *)
-Definition best_internal (mn mx : Z) : outcome ity :=
+(* the old find_best_internal_address on u64.  [Fail Overflow]: `(..).add(1).next_power_of_two()` overflowed u64. *)
+Definition pre_best_internal (mn mx : Z) : outcome ity :=
   let needs_signed := mn <? 0 in
   let m := Z.max (Z.abs mn) (Z.abs mx) + 1 in
   if 2 ^ 63 <? m then Fail Overflow
@@ -423,8 +553,8 @@ Definition best_internal (mn mx : Z) : outcome ity :=
       Z.max (next_power_of_two (Z.log2 (next_power_of_two m) + (if needs_signed then 1 else 0))) 8 in
     Ok {| signed := needs_signed; bits := needs_bits |}.
 
-Definition internal_type (d : device) : outcome ity :=
-  let (mn, mx) := find_min_max_addresses filter_all (d_objects d) in best_internal mn mx.
+Definition pre_internal_type (d : device) : outcome ity :=
+  let (mn, mx) := pre_find_min_max_addresses filter_all (d_objects d) in pre_best_internal mn mx.
 
 (* One step of the emitted address arithmetic = one accessor call:
    `self.base_address + ADDR (+|-) index as IT * |STRIDE|`, `assert!(index < count)` first. *)
@@ -463,6 +593,30 @@ Definition gen_addr (debug : bool) (it at_ : ity) (path : list step) : outcome Z
 (* the property's formula: sum(block offset + block index * block stride) + address + index * stride *)
 Definition step_sem (s : step) : Z := s_addr s + s_idx s * rep_stride (s_rep s).
 Definition addr_sem (path : list step) : Z := zsum (map step_sem path).
+
+(* every value the emitted code computes from exact operands on the way down a path: base + ADDR and the step's
+   result (= the address of the block instance / of the object itself), for every step *)
+Fixpoint checkpoints (base : Z) (path : list step) : list Z :=
+  match path with
+  | [] => []
+  | s :: t => (base + s_addr s) :: (base + step_sem s) :: checkpoints (base + step_sem s) t
+  end.
+
+(* the D3b side condition: for every repeated step (enclosing block or the object itself) the largest product
+   `index as IT * |STRIDE|` is representable in the internal type *)
+Definition step_product_ok (it : ity) (s : step) : Prop :=
+  match s_rep s with
+  | Some r => (r_count r - 1) * Z.abs (r_stride r) <= ity_max it
+  | None => True
+  end.
+Definition steps_product_ok (it : ity) (path : list step) : Prop := Forall (step_product_ok it) path.
+Definition step_product_okb (it : ity) (s : step) : bool :=
+  match s_rep s with
+  | Some r => (r_count r - 1) * Z.abs (r_stride r) <=? ity_max it
+  | None => true
+  end.
+(* the class of D3b: signed internal type and a step whose largest product does not fit it *)
+Definition d3b_class (it : ity) (path : list step) : bool := signed it && negb (forallb (step_product_okb it) path).
 
 (* why an instance is outside the class covered by C13_partial / C12_reject_iff_collision_partial *)
 Inductive tag :=
@@ -568,6 +722,37 @@ Fixpoint instances_objs (fuel : nat) (dev : list object) (objs : list object)
 Definition instances (fuel : nat) (objs : list object) : outcome (list instance) :=
   instances_objs fuel objs objs [] [] [].
 
+(* What the min/max walk of a filter is ABOUT, as a list: below a list of objects standing at [base], for every object
+   with an (effective) address, every address base + ADDR + k * stride over its (effective) repeat — a count of 0
+   counting like 1, its index-0 address — listed if the filter lets the object through; and, for a block or a block
+   ref, everything below its children (its target's children) standing at each of those addresses.  For [filter_kind k]
+   these are the addresses of all instances of kind k and the base addresses of all block instances. *)
+Fixpoint points_objs (fuel : nat) (dev : list object) (filter : object -> bool) (objs : list object) (base : Z)
+         {struct fuel} : outcome (list Z) :=
+  match fuel with
+  | O => Fail OutOfFuel
+  | S f =>
+    ocat (map (fun o =>
+      let tgt := ref_target dev o in
+      match eff_address o tgt with
+      | None => Ok []
+      | Some a =>
+          let rep := eff_repeat o tgt in
+          let own := map (fun k => base + a + k * rep_stride rep) (zrange (Z.max (rep_count rep) 1)) in
+          let listed := if filter o then own else [] in
+          match walk_children o tgt with
+          | None => Ok listed
+          | Some ch => match ocat (map (points_objs f dev filter ch) own) with
+                       | Fail k => Fail k
+                       | Ok below => Ok (listed ++ below)%list
+                       end
+          end
+      end) objs)
+  end.
+
+Definition points (fuel : nat) (filter : object -> bool) (objs : list object) : outcome (list Z) :=
+  points_objs fuel objs filter objs 0.
+
 (* two instances collide: same kind, same absolute address, not both allowing overlap.  "Distinct" is
    positional: instances are the entries of the instance list at two different positions. *)
 Definition collide (a b : instance) : bool :=
@@ -657,16 +842,14 @@ Definition addr_check (fx : bool) (fuel : nat) (dev_name : string) (d : device) 
   match address_types_specified d with
   | Some e => Ok (Some e)
   | None =>
-    match address_types_big_enough_i64 d with
+    match address_types_big_enough fuel d with
     | Fail k => Fail k
     | Ok (Some e) => Ok (Some e)
     | Ok None =>
       match lower fx fuel dev_name (d_objects d) with
       | Fail k => Fail k
       | Ok blocks =>
-        if negb (mm_ok (mm_walk filter_all (d_objects d))) then Fail Overflow
-        else
-        match internal_type d with
+        match internal_type_at fuel d with
         | Fail k => Fail k
         | Ok _ => overlap_pass fuel blocks
         end
@@ -676,6 +859,31 @@ Definition addr_check (fx : bool) (fuel : nat) (dev_name : string) (d : device) 
 
 (* the definition passes every address-related check *)
 Definition accepted (fx : bool) (fuel : nat) (dev_name : string) (d : device) : Prop := addr_check fx fuel dev_name d = Ok None.
+
+(* HISTORICAL: the same with the walk as it was before the repair (section (d-pre)) *)
+Definition pre_addr_check (fx : bool) (fuel : nat) (dev_name : string) (d : device) : outcome (option gen_error) :=
+  match address_types_specified d with
+  | Some e => Ok (Some e)
+  | None =>
+    match pre_address_types_big_enough_i64 d with
+    | Fail k => Fail k
+    | Ok (Some e) => Ok (Some e)
+    | Ok None =>
+      match lower fx fuel dev_name (d_objects d) with
+      | Fail k => Fail k
+      | Ok blocks =>
+        if negb (pre_mm_ok (pre_mm_walk filter_all (d_objects d))) then Fail Overflow
+        else
+        match pre_internal_type d with
+        | Fail k => Fail k
+        | Ok _ => overlap_pass fuel blocks
+        end
+      end
+    end
+  end.
+
+Definition pre_accepted (fx : bool) (fuel : nat) (dev_name : string) (d : device) : Prop :=
+  pre_addr_check fx fuel dev_name d = Ok None.
 
 Definition addr_pipeline (fx : bool) (fuel : nat) (dev_name : string) (d : device) : string :=
   match addr_check fx fuel dev_name d with
@@ -755,11 +963,12 @@ Definition c13_spec (fuel : nat) (d : device) : string :=
 (* model ## spec ## internal type *)
 Definition c13_result (fx : bool) (fuel : nat) (dev_name : string) (d : device) : string :=
   addr_pipeline fx fuel dev_name d ++ " ## " ++ c13_spec fuel d ++ " ## " ++
-  match internal_type d with Ok t => show_ity t | Fail _ => "-" end.
+  match internal_type_at fuel d with Ok t => show_ity t | Fail _ => "-" end.
 
 (* L2: for every instance of an accepted definition whose index tuple is extreme (every index 0 or count-1):
-   "<kind>|<accessor path a.b(i).c(j)>|<addr_sem>|<debug outcome>|<release value>|<tags>" — the check calls
-   the compiled accessor path and compares the recorded bus address *)
+   "<kind>|<accessor path a.b(i).c(j)>|<addr_sem>|<debug outcome>|<release value>|<D3b or nothing>" — the check calls
+   the compiled accessor path and compares the recorded bus address; the last field says whether the path is in the
+   class of D3b, the only class in which the emitted arithmetic of an accepted definition may overflow on the way *)
 Definition show_outcome_Z (o : outcome Z) : string :=
   match o with Ok z => show_Z z | Fail k => "panic:" ++ show_outcome_kind k end.
 
@@ -780,10 +989,10 @@ Definition l2_line (g : config) (it : ity) (i : instance) : string :=
   show_Z (i_addr i) ++ "|" ++
   show_outcome_Z (gen_addr true it at_ (i_path i)) ++ "|" ++
   show_outcome_Z (gen_addr false it at_ (i_path i)) ++ "|" ++
-  show_tags (c13_tags i).
+  (if d3b_class it (i_path i) then "D3b" else "").
 
 Definition c13_l2 (fuel : nat) (d : device) : string :=
-  match instances fuel (d_objects d), internal_type d with
+  match instances fuel (d_objects d), internal_type_at fuel d with
   | Ok l, Ok it =>
       String.concat ";" (map (l2_line (d_config d) it) (filter (fun i => forallb step_extreme (i_path i)) l))
   | _, _ => "fail"
